@@ -189,7 +189,7 @@ func (w *world) crashReopen() {
 	if w.backend != "rs" {
 		return
 	}
-	w.cancel()              // stops the background flusher
+	w.cancel()             // stops the background flusher
 	w.rs.LeveldbKV.Close() // the files as the dead process left them
 	w.openRS()
 }
